@@ -100,3 +100,75 @@ Proof.
   replace (q * lambert_eps ROps / (1 - q)) with (q / (1 - q) * lambert_eps ROps) by (field; lra).
   unfold Rdiv at 2. rewrite (Rmult_comm (lambert_eps ROps)). apply Rmult_le_compat_r; lra.
 Qed.
+
+(* ------------------------------------------------------------------ termination within the fuel *)
+Lemma latitude_step_range L e x : 0 <= e < 1 -> - PI / 2 < latitude_step ROps L e x < PI / 2.
+Proof.
+  intros He. unfold latitude_step, half_pi, ntwo. cbn.
+  set (u := Rpower ((1 + e * sin x) / (1 - e * sin x)) (e / (1 + 1)) * exp L).
+  assert (Up : 0 < u) by (unfold u, Rpower; apply Rmult_lt_0_compat; apply exp_pos).
+  pose proof (atan_bound u) as [_ B]. assert (0 < atan u) by (rewrite <- atan_0; apply atan_increasing; exact Up).
+  replace (1 + 1) with 2 by ring. lra.
+Qed.
+
+Lemma latitude_start_range L : - PI / 2 < (1 + 1) * atan (exp L) - PI / (1 + 1) < PI / 2.
+Proof.
+  pose proof (exp_pos L) as Ep. pose proof (atan_bound (exp L)) as [_ B].
+  assert (0 < atan (exp L)) by (rewrite <- atan_0; apply atan_increasing; exact Ep).
+  replace (1 + 1) with 2 by ring. lra.
+Qed.
+
+Lemma latitude_iter_terminates fuel L e x : 0 <= e < 1 ->
+  (e * e / (1 - e * e)) ^ fuel * Rabs (latitude_step ROps L e x - x) < lambert_eps ROps ->
+  exists r, latitude_iter ROps (S fuel) L e x = Some r.
+Proof.
+  intros He. set (q := e * e / (1 - e * e)).
+  assert (Hq : 0 <= q).
+  { unfold q. apply Rmult_le_pos; [nra|]. left. apply Rinv_0_lt_compat. nra. }
+  revert x. induction fuel as [|f IH]; intros x Hd.
+  - cbn [latitude_iter]. cbn [nltb nabs nsub ROps]. rewrite (proj2 (Rltb_true _ _)); [eexists; reflexivity|].
+    cbn [pow] in Hd. lra.
+  - cbn [latitude_iter]. cbn [nltb nabs nsub ROps].
+    destruct (Rltb (Rabs (latitude_step ROps L e x - x)) (lambert_eps ROps)) eqn:E; [eexists; reflexivity|].
+    apply IH.
+    pose proof (latitude_step_lipschitz L e x (latitude_step ROps L e x) He) as Lip. fold q in Lip.
+    assert (P : 0 <= q ^ f) by (apply pow_le; exact Hq).
+    eapply Rle_lt_trans; [|exact Hd]. cbn [pow].
+    replace (q * q ^ f * Rabs (latitude_step ROps L e x - x)) with (q ^ f * (q * Rabs (latitude_step ROps L e x - x))) by ring.
+    apply Rmult_le_compat_l; [exact P|exact Lip].
+Qed.
+
+Lemma latitude_iter_more_fuel fuel k L e x r :
+  latitude_iter ROps fuel L e x = Some r -> latitude_iter ROps (fuel + k) L e x = Some r.
+Proof.
+  revert x. induction fuel as [|f IH]; intros x; [cbn [latitude_iter]; discriminate|].
+  change (S f + k)%nat with (S (f + k)). cbn [latitude_iter].
+  destruct (nltb ROps _ _); [intros H; exact H|apply IH].
+Qed.
+
+(* for e <= 1/10 the loop of computeLatitude exits within 8 passes, whatever the isometric latitude *)
+Lemma computeLatitude_terminates L e k : 0 <= e <= / 10 -> exists r, computeLatitude ROps (8 + k) L e = Some r.
+Proof.
+  intros He. assert (He' : 0 <= e < 1) by lra.
+  unfold computeLatitude. unfold half_pi, ntwo. cbn [nmul nsub natan nexp ndiv nadd n_one npi ROps].
+  set (x0 := (1 + 1) * atan (exp L) - PI / (1 + 1)).
+  destruct (latitude_iter_terminates 7 L e x0 He') as [r Hr].
+  - pose proof (latitude_step_range L e x0 He') as R1. pose proof (latitude_start_range L) as R0. fold x0 in R0.
+    assert (D : Rabs (latitude_step ROps L e x0 - x0) < 4).
+    { apply Rabs_def1; pose proof PI_4 as P4; pose proof PI_RGT_0; lra. }
+    set (q := e * e / (1 - e * e)).
+    assert (Ee : 0 < 1 - e * e) by nra.
+    assert (Hq : 0 <= q <= / 99).
+    { unfold q. split.
+      - apply Rmult_le_pos; [nra|]. left. apply Rinv_0_lt_compat. exact Ee.
+      - apply (Rmult_le_reg_r (1 - e * e)); [exact Ee|]. unfold Rdiv. rewrite Rmult_assoc, Rinv_l by lra. nra. }
+    assert (Q7 : q ^ 7 <= (/ 99) ^ 7) by (apply pow_incr; exact Hq).
+    assert (Q0 : 0 <= q ^ 7) by (apply pow_le; lra).
+    assert (Eps : lambert_eps ROps = / 1000000000000).
+    { unfold lambert_eps, RepoConstants.lambert_epsilon_m, RepoConstants.lambert_epsilon_e. eval_dec. lra. }
+    rewrite Eps.
+    apply Rle_lt_trans with ((/ 99) ^ 7 * 4).
+    + apply Rmult_le_compat; [exact Q0|apply Rabs_pos|exact Q7|lra].
+    + cbn [pow]. lra.
+  - exists r. change (8 + k)%nat with (8 + k)%nat. apply latitude_iter_more_fuel. exact Hr.
+Qed.
